@@ -526,6 +526,12 @@ def cli_equivalence(tier):
         datasets['shoc_standard'] = ds2.assign_coords(t=t)
         ds3 = builders.ugrid('block', fill='nan', data_vars={'depth': (('nface',), numpy.arange(7.0))})
         datasets['ugrid'] = ds3
+        # coordinates that need decoding: packed as scaled integers on disk
+        ds4 = builders.cf1d(3, 4, lat=numpy.array([-20.5, -20.0, -19.5]), lon=numpy.array([149.5, 150.0, 150.5, 151.0]),
+                            data_vars={'temp': (('t', 'y', 'x'), numpy.arange(24.0).reshape(2, 3, 4))}).assign_coords(time=t)
+        ds4['lat'].encoding.update(dtype='int16', scale_factor=0.05, add_offset=-20.0, _FillValue=numpy.int16(-32768))
+        ds4['lon'].encoding.update(dtype='int16', scale_factor=0.05, add_offset=150.0, _FillValue=numpy.int16(-32768))
+        datasets['cf1d-packed'] = ds4
         for name, ds in datasets.items():
             src = os.path.join(work, f'{name}.nc')
             ds.to_netcdf(src)
